@@ -194,11 +194,56 @@ def run(ctx):
                         res.violation("declared count differs from the model", sub, impl=n, model=ans[1][2], clause="model tie: count")
 
                 batch.add(["emit_amp", node_wire(ln, wtree), [s.name for s in states[1:]]], on)
+
+                # the text itself, character for character, against the model's rendering of the same emission
+                def on_text(ans, sub=sub, out=out):
+                    if ans is None:
+                        return
+                    if ans[0] != "ok":
+                        res.violation("the model refuses an amplitude the code emits", sub, model=ans, clause="model tie: emission")
+                    elif ans[1] != out:
+                        a, b = ans[1].split("\n"), out.split("\n")
+                        k = next((i for i, (x, y) in enumerate(zip(a, b)) if x != y), min(len(a), len(b)))
+                        res.violation("the emitted text differs from the model's text (first differing line shown)", sub,
+                                      impl=b[k] if k < len(b) else "<end>", model=a[k] if k < len(a) else "<end>", clause="model tie: emitted text")
+
+                batch.add(["emit_text", py, node_wire(ln, wtree), [s.name for s in states[1:]], text_oracles(ln)[0], text_oracles(ln)[1], bool(ln.fix),
+                           [f"{ln.amp.real:.6}", f"{ln.err.real:.6}", f"{ln.amp.imag:.6}", f"{ln.err.imag:.6}"], spline_consts(doc)], on_text)
+                res.count("texts_compared")
                 seen_order.append(str(ln))
             if len(seen_order) != len(set(seen_order)) and False:
                 pass
     batch.run()
     return res.done()
+
+
+def text_oracles(line):
+    """per decaying node: the particle's display name (for str(line)) and the programmatic spelling of the name as written
+    (for the spline array) - values of the `particle` package"""
+    from decaylanguage.modeling.goofit import programmatic_name
+
+    pn, sa = {}, {}
+
+    def walk(l):
+        if l.daughters:
+            pn[l.name] = str(l.particle)
+            if l.lineshape == "GSpline.EFF":
+                sa[l.name] = programmatic_name(l.name)
+            for d in l.daughters:
+                walk(d)
+
+    walk(line)
+    return [[k, v] for k, v in pn.items()], [[k, v] for k, v in sa.items()]
+
+
+def spline_consts(doc):
+    """(Min, Max, int(N)) per spline resonance as the emitters format them, from the constants written in the document"""
+    vals = {}
+    for st in doc:
+        if st[0] == "constant" and "::Spline::" in st[1]:
+            nm, key = st[1].split("::Spline::")
+            vals.setdefault(nm, {})[key] = float(st[2])
+    return [[nm, str(v["Min"]), str(v["Max"]), str(int(v["N"]))] for nm, v in vals.items() if {"Min", "Max", "N"} <= set(v)]
 
 
 def _flat_particles(line):
